@@ -168,7 +168,7 @@ BodyText(b) ==
 
 (* the text of the word in context ctx: inside a here-document everything  *)
 (* is scanned as inside double quotes                                      *)
-Text(ctx, w) == Str(WText(w, ctx = "here"))
+Text(ctx, w) == Str(WText(w, ctx \in {"here", "hereq"}))
 
 ---------------------------------------------------------------------------
 (* 2.6.3, last paragraphs: "$((" ... "arithmetic expansion has precedence; *)
@@ -536,20 +536,25 @@ RunBody(b, st) ==
 ---------------------------------------------------------------------------
 (* Contexts (the command the harness builds around the text of the word):  *)
 (*   "arg"     probe W                          fields (several words: sp) *)
+(*   "cmdname" W x1     (only when the first field is `probe`: the command *)
+(*                      name comes from the expansion)   the other fields  *)
 (*   "for"     for i in W; do probe "$i"; done  fields                     *)
 (*   "assign"  z=W                              <<value>>, $? afterwards   *)
 (*   "asgseq"  z=W y=a$x                        <<value>>; y sees W's      *)
 (*                                              side effects (2.9.1)       *)
+(*   "asgcs"   y=$(put b; status 5) z=W         <<value>>; W sees y = b;   *)
+(*                                              $? from the last one       *)
 (*   "export"  export z=W                       <<value>>, $? = 0          *)
 (*   "noname"  W   (only when it yields no field)   $? afterwards          *)
 (*   "case"    case W in (S) ...                <<string>>                 *)
 (*   "pat"     case S in (W) ...                <<lit, Y/N, alt, Y/N>>     *)
 (*   "redir"   >/r/W                            <<file name>>, $?          *)
 (*   "here"    a here-document line (unquoted delimiter)   <<text>>        *)
+(*   "hereq"   the same here-document on a command without a name: $?      *)
 (* Outcome: [k |-> "ok"/"err"/"skip", f, x, y, ifs, q, sv]; q: the value   *)
 (* of $? after the command ("" not compared, "nz" any non-zero); sv: the   *)
 (* variables x, y, IFS after the command are compared.                     *)
-Contexts == {"arg", "for", "assign", "asgseq", "export", "noname", "case", "pat", "redir", "here"}
+Contexts == {"arg", "cmdname", "for", "assign", "asgseq", "asgcs", "export", "noname", "case", "pat", "redir", "here", "hereq"}
 
 RECURSIVE SplitAtBlank(_, _, _)
 SplitAtBlank(w, i, cur) ==
@@ -597,10 +602,16 @@ HereChars(w, st) ==
 
 Outcome(ctx, w, st0) ==
   LET st == WithCs(st0, "") IN
-  IF AnyAmb(w, st) \/ ~WellFormedW(w, ctx = "here") THEN SkipO(st)
+  IF AnyAmb(w, st) \/ ~WellFormedW(w, ctx \in {"here", "hereq"}) THEN SkipO(st)
   ELSE CASE ctx \in {"arg", "for"} ->
          LET ws == SplitAtBlank(w, 1, <<>>) IN
          IF ws = <<>> THEN SkipO(st) ELSE OfR(WArgs(ws, 1, st), "", TRUE)
+    [] ctx = "cmdname" ->
+         LET ws == SplitAtBlank(w, 1, <<>>)
+             r == WArgs(ws, 1, st)
+         IN IF ws = <<>> THEN SkipO(st)
+            ELSE IF r.k = "ok" /\ (r.f = <<>> \/ r.f[1] # "probe") THEN SkipO(st)
+            ELSE OfR([r EXCEPT !.f = IF r.k = "ok" THEN Tail(r.f) \o <<"x1">> ELSE <<>>], "", TRUE)
     [] ctx = "noname" ->
          LET ws == SplitAtBlank(w, 1, <<>>)
              r == WArgs(ws, 1, st)
@@ -617,6 +628,10 @@ Outcome(ctx, w, st0) ==
                   st2 == [r.st EXCEPT !.y = Val("a" \o (IF xv.set THEN xv.v ELSE ""))]
               IN IF r.k = "ok" /\ r.st.nounset /\ ~xv.set THEN Out("err", <<>>, r.st, "", FALSE)
                  ELSE OfR([r EXCEPT !.st = st2], NoNameStatus(r.st), TRUE)
+    [] ctx = "asgcs" ->
+         IF HasBlank(w) \/ w = <<>> THEN SkipO(st)
+         ELSE LET r == OneStr(w, [st EXCEPT !.y = Val("b"), !.cs = "5"])
+              IN OfR(r, NoNameStatus(r.st), TRUE)
     [] ctx = "case" ->
          IF HasBlank(w) \/ w = <<>> THEN SkipO(st) ELSE OfR(OneStr(w, st), "", FALSE)
     [] ctx = "pat" ->
@@ -637,6 +652,11 @@ Outcome(ctx, w, st0) ==
               THEN SkipO(st)
               ELSE IF r.k \notin {"ok", "skip"} THEN SkipO(st)      \* see "here" below
               ELSE OfR(r, NoNameStatus(r.st), FALSE)
+    [] ctx = "hereq" ->
+         LET r == HereChars(w, st) IN
+         IF r.k # "ok" THEN SkipO(st)
+         ELSE IF NoNameStatus(r.st) = "open" THEN SkipO(st)
+         ELSE Out("ok", <<>>, r.st, NoNameStatus(r.st), FALSE)
     [] ctx = "here" ->
          LET r == HereChars(w, st) IN
          IF r.k = "skip" THEN SkipO(st)
